@@ -234,9 +234,94 @@ impl<'a> Sfnt<'a> {
         }
     }
 
+    // --------------------------------------------------------------------------------------
+    // The "loca-trusting" reading.  A reader that trusts `loca`/`hhea` alone (no check against
+    // `maxp.numGlyphs` or the declared length of `glyf`/`hmtx`, only against the end of the
+    // FILE) sees a font slightly differently from the strict reader above on damaged or
+    // boundary fonts.  oxidize-pdf's `TrueTypeFont::get_glyph_data` / `get_glyph_metrics` read
+    // this way; the C12 model is fed these facts (what the subsetter really sees), while the
+    // oracle uses the strict reading and is silent where the two differ.
+    //   glyph:   index entry pair outside the loca TABLE            -> empty glyph
+    //            entry pair inside the table but beyond the file    -> failure
+    //            start >= end                                       -> empty glyph
+    //            glyf.offset + end beyond the file                  -> failure
+    //            otherwise the bytes glyf.offset+start .. +end of the FILE
+    //   metrics: gid < numberOfHMetrics: the long record (failure when beyond the file);
+    //            else last advance (failure when beyond the file) and the lsb-array entry read
+    //            from the FILE (0 when beyond it)
+    // --------------------------------------------------------------------------------------
+
+    /// `None` = the read fails; `Some(&[])` = empty glyph
+    pub fn glyph_bytes_lenient(&self, gid: u16) -> Option<&'a [u8]> {
+        let lo = self.rec(b"loca")?;
+        let gl = self.rec(b"glyf")?;
+        let short = self.loca_format_raw()? == 0;
+        let esz = if short { 2 } else { 4 };
+        let idx = gid as usize * esz;
+        if idx + 2 * esz > lo.length as usize {
+            return Some(&[]);
+        }
+        let base = lo.offset as usize + idx;
+        let (s, e) = if short {
+            (be16(self.data, base)? as usize * 2, be16(self.data, base + 2)? as usize * 2)
+        } else {
+            (be32(self.data, base)? as usize, be32(self.data, base + 4)? as usize)
+        };
+        if s >= e {
+            return Some(&[]);
+        }
+        let (gs, ge) = (gl.offset as usize + s, gl.offset as usize + e);
+        if ge > self.data.len() {
+            return None;
+        }
+        Some(&self.data[gs..ge])
+    }
+
+    /// head.indexToLocFormat read at the table's offset in the FILE (head's length not consulted)
+    pub fn loca_format_raw(&self) -> Option<u16> {
+        let h = self.rec(b"head")?;
+        be16(self.data, h.offset as usize + 50)
+    }
+
+    pub fn glyph_desc_lenient(&self, gid: u16) -> Option<GlyphDesc> {
+        self.glyph_bytes_lenient(gid).map(describe_glyph)
+    }
+
+    /// `None` = the read fails
+    pub fn hmetrics_lenient(&self, gid: u16) -> Option<(u16, i16)> {
+        let hh = self.rec(b"hhea")?;
+        let hm = self.rec(b"hmtx")?;
+        if hh.offset as usize + 36 > self.data.len() {
+            return None;
+        }
+        let nh = be16(self.data, hh.offset as usize + 34)?;
+        let hmo = hm.offset as usize;
+        if gid < nh {
+            let o = hmo + gid as usize * 4;
+            Some((be16(self.data, o)?, bei16(self.data, o + 2)?))
+        } else {
+            if nh == 0 {
+                return None;
+            }
+            let adv = be16(self.data, hmo + (nh as usize - 1) * 4)?;
+            let lo = hmo + nh as usize * 4 + (gid - nh) as usize * 2;
+            Some((adv, bei16(self.data, lo).unwrap_or(0)))
+        }
+    }
+
+    /// `cmap_unicode` without the "glyph id < numGlyphs" filter on formats 0/4/6 (a reader that
+    /// does not cross-check the cmap against maxp keeps such entries); format 12 keeps the filter.
+    pub fn cmap_unicode_lenient(&self) -> Result<BTreeMap<u32, u16>, String> {
+        self.cmap_unicode_with(false)
+    }
+
     /// Unicode cmap: the full-repertoire subtable when there is one, else the BMP one.
     /// Preference (3,10) > (0,6) > (0,4) > (3,1) > (0,3) > (0,x); formats 0, 4, 6, 12.
     pub fn cmap_unicode(&self) -> Result<BTreeMap<u32, u16>, String> {
+        self.cmap_unicode_with(true)
+    }
+
+    fn cmap_unicode_with(&self, strict: bool) -> Result<BTreeMap<u32, u16>, String> {
         let cm = self.table(b"cmap")?;
         let n = be16(cm, 2).ok_or("cmap short")? as usize;
         let mut best: Option<(u8, usize)> = None;
@@ -268,12 +353,14 @@ impl<'a> Sfnt<'a> {
         let (_, off) = best.ok_or("no unicode cmap subtable")?;
         let ng = self.num_glyphs()? as u32;
         let mut m = BTreeMap::new();
+        let fmt = be16(cm, off).unwrap();
+        let filter = strict || fmt == 12;
         let mut put = |c: u32, g: u32| {
-            if g != 0 && g < ng.max(1) && g <= 0xFFFF {
+            if g != 0 && (!filter || g < ng.max(1)) && g <= 0xFFFF {
                 m.insert(c, g as u16);
             }
         };
-        match be16(cm, off).unwrap() {
+        match fmt {
             0 => {
                 for c in 0..256usize {
                     put(c as u32, *cm.get(off + 6 + c).ok_or("cmap0 short")? as u32);
